@@ -123,6 +123,11 @@ def clamp_slice(lo, hi, n):
         # z3's substr already clamps at the end of the string: s[a:b] == substr(s, a, b - a) for 0 <= a, b
         a = lo or 0
         return z3.IntVal(a), z3.IntVal(max(0, hi - a))
+    if (lo is None or (isinstance(lo, int) and lo >= 0)) and isinstance(hi, int) and hi < 0 \
+            and not isinstance(lo, bool) and not isinstance(hi, bool):
+        # s[a:-b]: substr(s, a, n - b - a); z3's substr yields "" for a negative length or a start beyond the end
+        a = lo or 0
+        return z3.IntVal(a), n + hi - a
     def norm(x, dflt):
         if x is None:
             return dflt
@@ -1982,10 +1987,14 @@ def sp_matches(it, args, kwargs):
 
 
 def sp_py_int(it, args, kwargs):
+    if isinstance(args[0], str):
+        return int(args[0])
     return SInt(py_int(as_term_str(args[0])))
 
 
 def sp_py_int_base(it, args, kwargs):
+    if isinstance(args[0], str) and isinstance(args[1], int):
+        return int(args[0], args[1])
     return SInt(py_int_base(as_term_str(args[0]), as_term_int(args[1])))
 
 
